@@ -73,7 +73,7 @@ PROPS["C18"] = {
     "streams": lambda seed, tier: [
         {"cfg": c, "name": g, "kind": "pair", "lines": alias_pairs(gen(g, seed, n if tier == "quick" else 4 * n, tier))}
         for c in cfgs(tier, ["asm", "portable64"], ["asm", "asm+nobmi2", "asm-O0", "portable64", "portable64-O0", "portable32", "portable32-O0"])
-        for (g, n) in (("bigint", 4), ("fp", 6), ("tower", 8), ("curve", 6))],
+        for (g, n) in (("bigint", 4), ("fp", 6), ("tower", 8), ("curve", 6), ("scalar", 4), ("gt", 8), ("pairing", 3))],
     "known_explains_broken": lambda undischarged, known: all(
         any(re.search(r"Fq6\.multiply_o(b|ab)_alias", o["name"]) for _ in [0]) for o in undischarged),
     "rule": "pairs of operation lines (all objects distinct / output aliased to inputs) on identical operands; the two raw results must be identical; distinct = distinct op lines",
